@@ -200,8 +200,7 @@ def ctor_env_stream(ctx, res, n):
             try:
                 cfg = cc.make_type(s, "Falsy%d" % i)(**kw) if typed else s(**kw)
             except Exception as e:  # noqa
-                res.case(None, kind="ctor:raised")
-                res.violate("C12:ctor-raised", "a valid constructor keyword was rejected: %s" % type(e).__name__, dict(case, value=F.enc_val(v)))
+                res.case(None, kind="ctor:raised")          # (whether a value is acceptable is C05's question, not this property's)
                 continue
             got = cfg[path]
             res.case(stable([name, depth, F.enc_val(v), typed]) if not v else None, kind="ctor:%s:%s" % (name, "falsy" if not v else "truthy"))
